@@ -14,13 +14,14 @@ SHARDS = {"quick": 4, "thorough": 16}
 WATCHDOG = {"quick": 900, "thorough": 3000}
 REQUIRED_CLASSES = {t: ["k_2=inf", "k_2=k_1", "k_2_finite", "TN_only", "TS_only", "TN_and_TS", "no_scatter",
                         "native_probability!=0.5", "load==SD_exactly", "load_below_SD", "load_above_SD",
-                        "broadcast:curves_x_loads_disjoint", "broadcast:shared_level", "cycles==ND_exactly"]
+                        "broadcast:curves_x_loads_disjoint", "broadcast:shared_level", "cycles==ND_exactly",
+                        "broadcast:per_row_native_probability", "target==one_row_native", "probability:array_containing_native"]
                     for t in ("quick", "thorough")}
 REQUIRED_MONITORS = ["cycles==basquin_model", "load==basquin_model", "load(cycles(S))==S", "cycles(load(N))==N",
                      "non_increasing", "continuous_at_knee", "slope_k1_above", "slope_k2_below", "infinite_below_SD",
                      "miner:only_k2_changes", "miner:original_unaltered", "cycles_grow_with_probability", "N90/N10==TN",
                      "SD90/SD10==TS", "transform_composes", "transform_native_is_identity", "std<->T_inverse",
-                     "T==10^(2 z90 s)", "broadcast==elementwise_scalar"]
+                     "T==10^(2 z90 s)", "broadcast==elementwise_scalar", "probability_array==scalar_loop"]
 RULE = ("seeded curves: k_1 in (1,15], k_2 in {inf, k_1, 2k_1-1, U(k_1,3k_1)}, SD 10..1000, ND 1e4..1e7, TN/TS each given or "
         "omitted (>= 1), native failure probability 0.5 or U(0.01,0.99), target probabilities in (0,1); loads on a log grid "
         "around SD incl. SD exactly and SD(1 +- 1e-9); scalar, array and indexed (broadcast) evaluation. The real accessor "
@@ -267,3 +268,30 @@ def run_case(case, ctx):
                 ok, bad = False, {"key": kd, "got": float(val), "expected": e}
                 break
     ctx.check("broadcast==elementwise_scalar", ok, observed=bad, detail={"shared": bool(shared)})
+
+    # curves with their own native failure probability each, evaluated at a target that is one row's native value
+    nat = np.round(rng.uniform(0.05, 0.95, m), 3)
+    curves_p = curves.copy()
+    curves_p["failure_probability"] = nat
+    target = float(nat[int(rng.integers(0, m))]) if rng.random() < 0.7 else pb_
+    ctx.tag("broadcast:per_row_native_probability")
+    if target in nat:
+        ctx.tag("target==one_row_native")
+    Lq = float(SD * 10 ** rng.uniform(0.0, 0.4))
+    Nq = float(ND * 10 ** rng.uniform(-1.5, -0.2))
+    got_c = np.asarray(curves_p.woehler.cycles(Lq, target), dtype=float)
+    got_l = np.asarray(curves_p.woehler.load(Nq, target), dtype=float)
+    exp_c = np.array([ref_cycles(curves_p.iloc[i].to_dict(), Lq, target) for i in range(m)])
+    exp_l = np.array([ref_load(curves_p.iloc[i].to_dict(), Nq, target) for i in range(m)])
+    ctx.check("broadcast==elementwise_scalar", _close(got_c, exp_c, 1e-9) and _close(got_l, exp_l, 1e-9),
+              observed={"cycles": got_c, "load": got_l}, expected={"cycles": exp_c, "load": exp_l},
+              detail={"native": nat, "target": target})
+    # one curve, several target probabilities at once (the native one among them)
+    ps = [float(v) for v in (case["p"][0], p0, case["p"][1])]
+    ctx.tag("probability:array_containing_native")
+    got_c = np.asarray(wc.cycles(Lq, ps), dtype=float).reshape(-1)
+    got_l = np.asarray(wc.load(Nq, ps), dtype=float).reshape(-1)
+    exp_c = np.array([ref_cycles(c, Lq, q_) for q_ in ps])
+    exp_l = np.array([ref_load(c, Nq, q_) for q_ in ps])
+    ctx.check("probability_array==scalar_loop", _close(got_c, exp_c, 1e-9) and _close(got_l, exp_l, 1e-9),
+              observed={"cycles": got_c, "load": got_l}, expected={"cycles": exp_c, "load": exp_l}, detail={"p": ps})
